@@ -143,6 +143,227 @@ inline double rnd_double(splitmix &r, bool extreme = true)
   }
 }
 
+
+// ---- objects produced by histories ---------------------------------------------------------
+inline hash_t make_hash(splitmix &r)
+{
+  hash_t h;
+  switch (r.below(5))
+  {
+  case 0: h = hash_t(r.next(), r.next()); break;
+  case 1: h = hash_t(r.below(3) ? 0 : ~0ull, r.below(2) ? 0 : ~0ull); break;
+  case 2: h = hash_t(r.below(1000), r.below(1000)); break;
+  default:
+  {
+    std::vector<unsigned char> buf(r.below(64));
+    for (auto &b : buf) b = (unsigned char)r.below(256);
+    h = hash::hash128(buf.data(), buf.size());
+    for (auto j(r.below(3)); j; --j) h.combine(hash_t(r.next(), r.next()));
+  }
+  }
+  return h;
+}
+
+inline fitness_t rnd_fitness(splitmix &r, unsigned size)
+{
+  fitness_t f(with_size(size), 0.0);
+  for (unsigned i(0); i < size; ++i) f[i] = rnd_double(r);
+  return f;
+}
+
+inline fitness_t make_fit(splitmix &r, bool allow_empty = true)
+{
+  const unsigned size(allow_empty && r.below(40) == 0 ? 0 : 1 + r.below(r.below(4) ? 3 : 9));
+  fitness_t f(rnd_fitness(r, size));
+  // a short arithmetic history (kept only while every component stays finite)
+  for (auto j(r.below(4)); j && size; --j)
+  {
+    fitness_t g(f);
+    switch (r.below(4))
+    {
+    case 0: g += rnd_fitness(r, size); break;
+    case 1: g -= rnd_fitness(r, size); break;
+    case 2: g = g * rnd_double(r, false); break;
+    default: g = g / 3.0; break;
+    }
+    bool fin(true);
+    for (auto v : g) fin = fin && std::isfinite(v);
+    if (fin) f = g;
+  }
+  return f;
+}
+
+struct ga_env
+{
+  ga_problem prob;
+  explicit ga_env(splitmix &r, unsigned params)
+  {
+    prob.env.init();
+    for (unsigned i(0); i < params; ++i)
+    {
+      int lo, hi;
+      switch (r.below(4))
+      {
+      case 0: lo = -10; hi = 10; break;
+      case 1: lo = std::numeric_limits<int>::min(); hi = std::numeric_limits<int>::max(); break;
+      case 2: lo = 0; hi = 1 + int(r.below(100000)); break;
+      default: lo = -int(r.below(2000000000)) - 1; hi = int(r.below(2000000000)) + 1; break;
+      }
+      prob.insert(range(lo, hi));
+    }
+  }
+};
+
+// individuals with an age that only a previous load can produce
+template<class T, class... A> T with_age(const T &x, unsigned age, const A &... ss)
+{
+  std::string bytes(save_bytes(x));
+  const auto nl(bytes.find('\n'));
+  bytes = std::to_string(age) + bytes.substr(nl);
+  T y;
+  std::istringstream in(bytes);
+  if (!y.load(in, ss...)) return x;
+  return y;
+}
+
+inline unsigned rnd_age(splitmix &r)
+{
+  switch (r.below(4))
+  {
+  case 0: return 0;
+  case 1: return unsigned(r.below(200));
+  case 2: return unsigned(r.next());
+  default: return std::numeric_limits<unsigned>::max() - unsigned(r.below(2));
+  }
+}
+
+inline i_ga make_iga(splitmix &r)
+{
+  i_ga x;
+  if (r.below(30))
+  {
+    ga_env e(r, 1 + unsigned(r.below(r.below(5) ? 8 : 60)));
+    x = i_ga(e.prob);
+    for (auto j(r.below(6)); j; --j)
+      switch (r.below(4))
+      {
+      case 0: x.mutation(0.5, e.prob); break;
+      case 1: if (x.parameters() >= 2) x = crossover(x, i_ga(e.prob)); break;
+      case 2: x.inc_age(); break;
+      default:
+      {
+        static const int ext[] = {std::numeric_limits<int>::min(), std::numeric_limits<int>::max(), 0, -1};
+        x[r.below(x.parameters())] = ext[r.below(4)];
+      }
+      }
+    if (r.below(3) == 0) x = with_age(x, rnd_age(r));
+  }
+  return x;
+}
+
+struct de_env
+{
+  de_problem prob;
+  explicit de_env(splitmix &r, unsigned params)
+  {
+    prob.env.init();
+    for (unsigned i(0); i < params; ++i)
+    {
+      const double w(r.below(3) ? 10.0 : std::ldexp(1.0, int(r.between(-30, 900))));
+      prob.insert(range(-w, w));
+    }
+  }
+};
+
+inline i_de make_ide(splitmix &r)
+{
+  i_de x;
+  if (r.below(30))
+  {
+    de_env e(r, 1 + unsigned(r.below(r.below(5) ? 8 : 60)));
+    x = i_de(e.prob);
+    for (auto j(r.below(6)); j; --j)
+      switch (r.below(3))
+      {
+      case 0:
+      {
+        i_de c(x.crossover(0.9, range(0.5, 1.0), i_de(e.prob), i_de(e.prob), i_de(e.prob)));
+        bool fin(true);
+        for (auto v : c) fin = fin && std::isfinite(v);
+        if (fin) x = c;
+        break;
+      }
+      case 1: x.inc_age(); break;
+      default: x[r.below(x.parameters())] = rnd_double(r);
+      }
+    if (r.below(3) == 0) x = with_age(x, rnd_age(r));
+  }
+  return x;
+}
+
+template<class T> matrix<T> make_mat(splitmix &r)
+{
+  const std::size_t rows(r.below(8) ? r.below(7) : r.below(40)), cols(r.below(8) ? r.below(7) : r.below(40));
+  matrix<T> m(rows, cols);
+  for (auto &e : m)
+    switch (r.below(4))
+    {
+    case 0: e = T(r.below(10)); break;
+    case 1: e = std::numeric_limits<T>::max() - T(r.below(2)); break;
+    case 2: e = std::numeric_limits<T>::min() + T(r.below(2)); break;
+    default: e = T(r.next()); break;
+    }
+  for (auto j(r.below(3)); j && !m.empty(); --j)
+    switch (r.below(4))
+    {
+    case 0: m = fliplr(m); break;
+    case 1: m = flipud(m); break;
+    case 2: m = transpose(m); break;
+    default: m = rot90(m); break;
+    }
+  return m;
+}
+
+inline bool dist_finite(const distribution<double> &x)
+{
+  bool fin(std::isfinite(x.*get(dist_mean())) && std::isfinite(x.*get(dist_min()))
+           && std::isfinite(x.*get(dist_max())) && std::isfinite(x.*get(dist_m2())));
+  for (const auto &kv : x.seen()) fin = fin && std::isfinite(kv.first);
+  return fin;
+}
+
+inline distribution<double> make_dist(splitmix &r, bool allow_extreme = true)
+{
+  distribution<double> x;
+  const unsigned adds(r.below(10) ? unsigned(r.below(40)) : unsigned(r.below(400)));
+  const int mode(int(r.below(allow_extreme ? 6 : 5)));   // 5 = extreme magnitudes
+  for (unsigned j(0); j < adds; ++j)
+    switch (mode)
+    {
+    case 0: x.add(double(r.between(-5, 6))); break;
+    case 1: x.add(double(r.between(-300, 300)) / 7.0); break;
+    case 2: x.add(rnd_double(r, false)); break;
+    case 3: x.add(std::ldexp(double(r.between(-9, 10)), int(r.between(-40, 40)))); break;
+    case 4: x.add(j % 5 ? 1e-3 * double(r.below(50)) : std::nan("")); break;
+    default: x.add(std::ldexp(double(r.between(-9, 10)), int(r.between(-1000, 1000)))); break;
+    }
+  return x;
+}
+
+inline std::string obs_iga(const i_ga &y)
+{
+  std::ostringstream o;
+  o << enc(y) << " sig=" << enc(y.signature()) << " valid=" << y.is_valid();
+  return o.str();
+}
+
+inline std::string obs_ide(const i_de &y)
+{
+  std::ostringstream o;
+  o << enc(y) << " sig=" << enc(y.signature()) << " valid=" << y.is_valid();
+  return o.str();
+}
+
 // ---- the property's own oracle for C11: reload into a fresh object -------------------------
 // Returns "ok" or "bad:<reason>".
 template<class T, class Fresh, class Load, class Obs>
